@@ -16,6 +16,10 @@ def check(rep, tier, seed):
         cases.append(sched.gen_schedule(r, n_clients if i % 2 else 3, keys, ENGINES[i % 3]))
     # sequential histories for the header/data relation of read responses (incl. reads above the committed revision)
     seqs = [c03.gen_case(seed + 1000, i, ENGINES[i % 3], 40) for i in range(12 if tier == "quick" else 300)]
+    # all interleavings of two clients on one live key, every pair of request shapes (as in C01): the response
+    # of the LOSER of a race carries the winner's kv - its header must cover it
+    from . import c01
+    cases += c01.exhaustive_pairs(seed, "memkv")
     core.run_cases(cases + seqs)
     for c in cases:
         rep.count_case(c)
